@@ -14,5 +14,6 @@ open AgdbColl
 #print axioms C19_index_chain
 #print axioms MultiMap_refines_partial
 #print axioms MultiMap_refines
+#print axioms MultiMap_refines_values
 #print axioms C19_every_history_runs
 #print axioms C19_tombstone_counterexample
